@@ -259,7 +259,7 @@ def run(tier):
     corr_update(chk, r, 3000 if thorough else 300)
     search_runs(chk, r, 80 if thorough else 10)
     chk.assumptions += [
-        "'the caller's dicts are not written': proved on a heap model (Model/Heap.lean: objects at locations, .copy() allocates, nested objects shared) for the effect lists regenerated each run from the syntax trees of compatibility.update (callees inlined), CouplingConstants.from_dict, Runner.__init__, StructureFunction.load, CrossSection.load: every store goes at depth 0 into an object the function created itself, for every branch / value / alias (Heap.safe_preserves + decided `safe`); trusted: the syntactic classification of stores and mutating methods in harness/translate_effects.py (anything unknown is refused), that class instantiation and dict/list displays return new objects, that `self` is not one of the caller's objects",
+        "'the caller's dicts are not written': proved on a heap model (Model/Heap.lean: objects at locations, .copy() allocates, nested objects shared) for the effect lists regenerated each run from the syntax trees of compatibility.update (callees inlined), CouplingConstants.from_dict, Runner.__init__, StructureFunction.load, CrossSection.load, the three ESF constructors, and the whole life (constructor + any sequence of method calls: Heap.lifecycle_preserves) of StructureFunction and CrossSection: every store goes at depth 0 into an object the function created itself, for every branch / value / alias (Heap.safe_preserves + decided `safe`); trusted: the syntactic classification of stores and mutating methods in harness/translate_effects.py (anything unknown is refused), that class instantiation and dict/list displays return new objects, that `self` is not one of the caller's objects",
         "where the cards leave the analysed code (eko's XGrid / InterpolatorDispatcher, the scale-variation manager, the ESF / EXS constructors reached through load, numpy conversions, logging) is a decided table (escapes_known); what those callees do with the caller's nested objects is observed by the deep comparison of real runs only",
         "the functional model of update (Model/Compat.lean) carries the frame property (non-owned keys keep the very same reference) and idempotence for every card (update_idempotent)",
     ]
